@@ -24,7 +24,8 @@ def mk(c, stoch=True):
   if f == "qlin":
     return Q.quantized_linear(c["bits"], c["integer"], c["sym"], keep_negative=bool(c["kn"]), use_stochastic_rounding=stoch)
   if f == "qrelu":
-    return Q.quantized_relu(c["bits"], c["integer"], use_stochastic_rounding=stoch)
+    return Q.quantized_relu(c["bits"], c["integer"], negative_slope=(0.0 if c.get("slope") is None else 2.0 ** -c["slope"]),
+                            use_stochastic_rounding=stoch)
   if f == "qtanh":
     Q.set_internal_sigmoid("hard")
     return Q.quantized_tanh(c["bits"], use_stochastic_rounding=stoch, symmetric=bool(c["sym"]))
@@ -47,6 +48,9 @@ def configs(tier, rng):
     allc.append(dict(fam="qlin", bits=bits, integer=integer, kn=kn, sym=sym, alpha=None))
   for bits, integer in itertools.product([2, 3, 4, 6, 8], [0, 1, 2]):
     allc.append(dict(fam="qrelu", bits=bits, integer=integer, slope=None, iqc=True, rub=None))
+    for sl in (1, 2):
+      if sl <= bits - 1 and bits >= 3:
+        allc.append(dict(fam="qrelu", bits=bits, integer=integer, slope=sl, iqc=True, rub=None))   # leaky: negative side rounds p * slope
   for bits, sym in itertools.product([2, 3, 4, 6], [0, 1]):
     allc.append(dict(fam="qtanh", bits=bits, sym=sym, mode="hard"))
     allc.append(dict(fam="qsigmoid", bits=bits, sym=sym, mode="hard"))
@@ -54,7 +58,9 @@ def configs(tier, rng):
     allc.append(dict(fam="po2", bits=bits, mv=mv))
   if tier == "thorough":
     return allc
-  idx = rng.choice(len(allc), size=50, replace=False)
+  leaky = [i for i, c in enumerate(allc) if c["fam"] == "qrelu" and c.get("slope") is not None]
+  rest = [i for i in range(len(allc)) if i not in leaky]
+  idx = list(rng.choice(rest, size=44, replace=False)) + list(rng.choice(leaky, size=8, replace=False))
   return [allc[i] for i in sorted(idx)]
 
 
@@ -75,6 +81,9 @@ def code_of(c, x):
   """the real-valued pre-rounding code p of input x (float64), for choosing draws around frac"""
   f = c["fam"]
   se, lo, hi = fixed_k.fmt_of(c)
+  if f == "qrelu" and c.get("slope") is not None:
+    xx = x.astype(np.float64)
+    return np.where(xx < 0, xx * 2.0 ** -c["slope"], xx) / 2.0 ** se
   if f in ("qbits", "qlin", "qrelu"):
     return x.astype(np.float64) / 2.0 ** se
   if f == "qtanh":
